@@ -1,6 +1,6 @@
 """What MANIFEST.json claims.  Edited by hand; check/mkmanifest.py turns it into MANIFEST.json."""
 
-HOOK_COMMITS = []
+HOOK_COMMITS = ["085154a"]
 
 CLAIMS = [
     {
@@ -14,7 +14,21 @@ CLAIMS = [
         "note": "Trusted: Lean kernel; translator translate/ir2lean.py and clang-14's IR (validated by K1: compiled C++ vs "
                 "generated Lean vs Nat-level spec on 10^5/3*10^6 points); C++ shift UB for hp>=64 excluded.",
     },
+    {
+        "property_id": "C10",
+        "technique": "Lean 4 theorems on the executable table model (decision logic of setters / check_resize_validity) + K2 differential",
+        "text": "Props/C10.lean proves, for every table state, the decision logic the property states: out-of-domain settings are "
+                "rejected without effect, a resize beyond the maximum is refused with maximum_hashpower_exceeded, an automatic "
+                "expansion below the minimum load factor is refused with load_factor_too_low, an explicit one never consults the load "
+                "factor, and a refused resize returns the table unchanged. The model is tied to /repo by K2 (full answers of all "
+                "limit-related requests incl. structural scan `hp <= mhp` on the real table). PARTIAL: the reachable-state statements "
+                "(hp <= mhp as an invariant of every operation, rehash/reserve postconditions) are proved only to the extent listed "
+                "in DESIGN.md section 12; the rest is correspondence-checked.",
+        "design_ref": "DESIGN.md 6/C10, 12",
+        "note": "Trusted: Lean kernel; K2 harness + reference-map oracle; Float comparison load_factor()<minimum_load_factor() is opaque "
+                "in the theorems (IEEE double in the driver).",
+    },
 ]
 
 _PENDING = "machinery not built yet in this round (planned: DESIGN.md section 6); not claimed until its check exists"
-NOT_APPLICABLE = [{"property_id": "C%02d" % i, "reason": _PENDING} for i in range(1, 18) if i != 13]
+NOT_APPLICABLE = [{"property_id": "C%02d" % i, "reason": _PENDING} for i in range(1, 18) if i not in (10, 13)]
